@@ -383,7 +383,7 @@ func checkC01(c *hx.Checker) {
 		"Templates: Add/Sub/Mul (all ordered pairs for Sub), Relu, Transpose, Softmax{axis=-1}, Softmax{axis=0}, MatMul, Gemm{transB}, Gemm{transA,alpha=.5,beta=2} (C wired / omitted / empty), Concat+Slice, Reshape, Squeeze, Constant, RNN/GRU/LSTM with default and with explicit non-default activations (initial_h omitted / empty / wired; 5 output naming schemes: arbitrary, spec names, permuted spec names, trailing output omitted, skipped output with empty name). " +
 		"BFS: all programs of depth <= 2 over the full alphabet; depth 3 over the reduced alphabet {Sub, Relu, Transpose, Gemm2, GRU} as chains (each node consumes its predecessor's result)" +
 		map[bool]string{true: " and, thorough, unrestricted depth 3 over the reduced alphabet plus ALL depth-3 programs over the full alphabet (streamed simplest-first under a 25-minute budget; the evidence says whether it completed)", false: ""}[thorough] +
-		"; 2 input value sets; every depth<=1 program also with w1 declared as graph input (not supplied / supplied with another value), with the graph inputs declared with symbolic dims / without shape, and with the initializer w1 and the graph input a declared as graph outputs (passthrough); with value_info entries for every intermediate value, and with one output name more than the last node's operator returns (declared as graph output: Run must fail), with the last graph output declared twice, and with the caller's map carrying other tensors under the names of the intermediate values (computed correctly or refused); scalar (rank-0) graph inputs with and without an initializer default; one 5-node program under 7 value-naming schemes (prefixes of each other, case-only differences, odd characters, numeric-looking, very long, keyword-like) x 4 orders of the input / initializer / output lists; a chain of 600 nodes; 18 pairs of twin nodes (same operator, same inputs, one differing attribute of each kind) in 3 orders. Every program is marshalled, loaded with NewModelFromBytes and Run with EVERY intermediate value declared as graph output, and compared value by value with the reference evaluation of the same graph. " +
+		"; 2 input value sets; every depth<=1 program also with w1 declared as graph input (not supplied / supplied with another value), with the graph inputs declared with symbolic dims / without shape, and with the initializer w1 and the graph input a declared as graph outputs (passthrough); with value_info entries for every intermediate value, and with one output name more than the last node's operator returns (declared as graph output: Run must fail), with the last graph output declared twice, and with the caller's map carrying other tensors under the names of the intermediate values (computed correctly or refused); scalar (rank-0) graph inputs with and without an initializer default; one 5-node program under 7 value-naming schemes (prefixes of each other, case-only differences, odd characters, numeric-looking, very long, keyword-like) x 4 orders of the input / initializer / output lists; a chain of 600 nodes; 31 pairs of twin nodes (same operator, same inputs; one differing attribute of each kind, or spelled out vs left to the default) in 3 orders. Every program is marshalled, loaded with NewModelFromBytes and Run with EVERY intermediate value declared as graph output, and compared value by value with the reference evaluation of the same graph. " +
 		"states = program prefixes, transitions = appended node instances; non-trivial = programs with >= 1 node"
 	c.Assumptions = []string{"reference evaluator: ref interpreter applied node by node to a name->tensor environment (refeval.go)", "tolerance 1e-4 (abs+rel) on float32 values of magnitude <= ~10",
 		"a node listing fewer output names than the operator returns may be refused (positional binding with length check) but must never yield nil / missing outputs"}
@@ -617,6 +617,23 @@ func checkC01(c *hx.Checker) {
 			{"Constant", nil, []hx.Attr{hx.AFloats("value_floats", 1, 2)}, []hx.Attr{hx.AFloats("value_floats", 1, 3)}, 1, "floats"},
 			{"ConstantOfShape", []*ref.T{ref.I64Vec(2)}, []hx.Attr{hx.ATensor("value", ref.FromF(ref.F32, []int{1}, 1.5), "raw")}, []hx.Attr{hx.ATensor("value", ref.FromF(ref.F32, []int{1}, 2.5), "raw")}, 1, "tensor"},
 		}
+		// one node spells an attribute out, its twin leaves it to the default (and the other way round)
+		gidx := ref.I64Vec(1, 0)
+		twins = append(twins,
+			twin{"Gather", []*ref.T{x, gidx}, []hx.Attr{hx.AInt("axis", 1)}, nil, 1, "default"},
+			twin{"Softmax", []*ref.T{x}, []hx.Attr{hx.AInt("axis", 0)}, nil, 1, "default"},
+			twin{"LogSoftmax", []*ref.T{x}, []hx.Attr{hx.AInt("axis", 0)}, nil, 1, "default"},
+			twin{"Flatten", []*ref.T{x3}, []hx.Attr{hx.AInt("axis", 2)}, nil, 1, "default"},
+			twin{"ArgMax", []*ref.T{x}, []hx.Attr{hx.AInt("axis", 1), hx.AInt("keepdims", 0)}, nil, 1, "default"},
+			twin{"ReduceMax", []*ref.T{x}, []hx.Attr{hx.AInts("axes", 1), hx.AInt("keepdims", 0)}, nil, 1, "default"},
+			twin{"ReduceMin", []*ref.T{x}, []hx.Attr{hx.AInts("axes", 0), hx.AInt("keepdims", 0)}, []hx.Attr{hx.AInts("axes", 0)}, 1, "default"},
+			twin{"Gemm", []*ref.T{sq, sq}, []hx.Attr{hx.AFloat("alpha", 0.5), hx.AFloat("beta", 2), hx.AInt("transA", 1), hx.AInt("transB", 1)}, nil, 1, "default"},
+			twin{"Conv", []*ref.T{img, ker}, []hx.Attr{hx.AInts("strides", 2, 2), hx.AInts("pads", 1, 0, 0, 1), hx.AInts("dilations", 2, 1)}, nil, 1, "default"},
+			twin{"ConstantOfShape", []*ref.T{ref.I64Vec(2)}, []hx.Attr{hx.ATensor("value", ref.FromF(ref.F32, []int{1}, 1.5), "raw")}, nil, 1, "default"},
+			twin{"GRU", []*ref.T{rx, rw, rr}, []hx.Attr{hx.AInt("hidden_size", 2), hx.AStrs("activations", "tanh", "sigmoid")}, []hx.Attr{hx.AInt("hidden_size", 2)}, 2, "default"},
+			twin{"Scaler", []*ref.T{x}, []hx.Attr{hx.AFloats("offset", 0.5, -1, 2), hx.AFloats("scale", 2, 0.5, -1)}, []hx.Attr{hx.AFloats("offset", 0.5, -1, 2), hx.AFloats("scale", 1)}, 1, "floats"},
+			twin{"Cast", []*ref.T{x}, []hx.Attr{hx.AInt("to", 7)}, []hx.Attr{hx.AInt("to", 1)}, 1, "int"},
+		)
 		for ti, tw := range twins {
 			for _, order := range []string{"ab", "ba", "aba"} {
 				g := &onnx.GraphProto{Name: "g"}
